@@ -68,8 +68,11 @@ pub struct CacheCase {
     pub steps: Vec<CStep>,
 }
 
-const ADV_MS: [u64; 14] = [
+const ADV_MS: [u64; 19] = [
     0, 250, 500, 999, 1000, 1001, 1500, 2000, 7999, 8001, 59_000, 61_000, 600_500, 4_294_967_296_000,
+    // ages at which a count of seconds no longer fits a 24-bit significand (TTLs are 32-bit:
+    // entries that live for months and years are legal)
+    16_777_217_000, 20_000_003_500, 100_000_001_000, 1_000_000_007_250, 2_000_000_001_000,
 ];
 const CTTLS: [u32; 9] = [0, 1, 2, 3, 59, 600, 0x7fff_ffff, 0x8000_0000, 0xffff_ffff];
 
